@@ -24,6 +24,13 @@ def ghost():
 
 
 def inv_fields(n, m, W, Aw, Q, lo, hi, zero=False):
+    from pydsol.core.statistics import WeightedTally
+    f = A.ctor_defaults(WeightedTally, "t")         # every other attribute __init__ creates keeps its initial value
+    f.update(_inv_fields(n, m, W, Aw, Q, lo, hi, zero))
+    return f
+
+
+def _inv_fields(n, m, W, Aw, Q, lo, hi, zero=False):
     if zero:       # only zero-weight observations so far
         return {"_n": n, "_n_nonzero": 0, "_sum_of_weights": 0.0, "_weighted_mean": 0.0,
                 "_weight_times_variance": 0.0, "_weighted_sum": 0.0, "_min": lo, "_max": hi, "_name": "t"}
